@@ -25,6 +25,7 @@ RULE = (
     "raise UndefinedError under StrictUndefined. Non-trivial = at least one undefined value was created during the default render "
     "(counted by the hook), distinct by (source, data)."
     " Rounds 5-6 added enumerated families: pairs of missing paths in non-printing positions; missing values made by the engine (parentloop of an outermost loop, helpers' missing properties)."
+    " Round 7 added: extra-only tags and filters (translate, gettext family, with, macro, ternary, not) fed every missing path."
 )
 REQUIRED = [
     ("liquid/undefined.py", "StrictUndefined.__str__"),
